@@ -1,6 +1,7 @@
 (** extraction of the C18 model: specifications, checkers and as-is models *)
 Require Import FastZ.
-From Dashu Require Import Base.Prelude Float.RoundSpec Ratio.SimplestSpec Ratio.SimplestModel Ratio.SimplestFindings.
+From Dashu Require Import Base.Prelude Float.RoundSpec Ratio.SimplestSpec Ratio.SimplestModel Ratio.SimplestFindings
+  Ratio.SimplestDeepModel Ratio.SimplestIeeeDeepModel Ratio.SimplifyBodiesModel.
 From DashuGen Require Import SimplifyGen.
 Extraction "model.ml"
   freduce flt feq simpler simplest_in_spec simplest_closed
@@ -11,4 +12,6 @@ Extraction "model.ml"
   is_simpler_than_asis is_simpler_than_pinned simplest_in_asis simplest_in_pinned_shortcut
   nearest_asis next_up_asis next_down_asis next_up_pinned next_down_pinned
   simplest_from_ieee_asis simplest_from_ieee_pinned simplest_from_float_asis simplest_from_float_pinned simplest_from_float_r2 error_bounds_asis fnormalize
-  is_simpler_than_gen.
+  is_simpler_than_gen
+  simplest_from_float_deep_x simplest_from_float_deep_x1 float_bounds_deep_x simplest_from_f32_deep simplest_from_f64_deep
+  simplest_in_gen_x nearest_gen_x next_up_gen_x next_down_gen_x.
